@@ -114,10 +114,10 @@ func runC17(c *Ctx) {
 	c.rulePurgeResetsBoth("R17.6")
 	// Submitted is counted once per accepted job: persistent queues count in Add, only distributed queues subscribe
 	c.rulePersistentAccept("R17.7")
-	c.ruleDistributedBinders("R17.7")
+	c.ruleDistributedBinders("R17.9")
 	// NumProcessing <= NumConcurrency needs one dispatcher at a time
 	c.ruleOneDispatcher("R17.8")
-	c.ruleDispatcherJoined("R17.8")
+	c.ruleDispatcherJoined("R17.10")
 }
 
 func (c *Ctx) ruleMultiCounterReads(rule string) {
